@@ -238,7 +238,7 @@ def random_contracts(reg, cls=IN):
         lemmas={'exit': {'cat': 'be_cat(bytes([%s]), %s)' % (top, rest),
                          'bits': 'pow2_add(%s, 8 * (%s - 1))' % (SB, NB)}},
         modifies=['kwargs', TP + '.g_pos'], result='obj:' + cls,
-        options={'enum_shift': 8, 'int_lemmas': list(range(0, 9))})))
+        options={'enum_shift': 8, 'pow2_consts': True, 'int_lemmas': []})))
     return out
 
 
